@@ -48,6 +48,10 @@ def compare_runs(L, what, pre_a, outs_a, pre_b, outs_b, drop, cex=None, fields=F
             npairs += 1
             sa, sb = outcome_sig(L, oa), outcome_sig(L, ob)
             extra = list(oa.st.pc)
+            # an arbitrary error value of a stubbed native word is one symbolic value on one side and, once the wrapper
+            # has looked at it, a case split on the other: the same error
+            if sa[0] == "Err" and sb[0] == "Err" and (str(sa[1]).startswith("symbolic:") or str(sb[1]).startswith("symbolic:")):
+                sb = sa
             if sa != sb:
                 L.require(ob, False, "%s: same result in both drive modes (got %s vs %s)" % (what, sa, sb), extra_pc=extra, cex=cex)
                 continue
